@@ -59,7 +59,7 @@ def attr_hook(base, attr, interp):
     return None
 
 
-def run_output(repo, proto, json_mode=False, client=False):
+def run_output(repo, proto, json_mode=False, client=False, port=22):
     """-> {'sections': [{'alg_type', 'algorithms', 'alg_db', 'status_in', 'status_out', 'extras'}], 'returned': value, 'json_args': {...} or None}"""
     outf = repo.func('ssh_audit', 'output')
     oas = repo.func('ssh_audit', 'output_algorithms')
@@ -70,7 +70,7 @@ def run_output(repo, proto, json_mode=False, client=False):
     for need in ('out', 'aconf', 'banner', 'kex', 'pkm'):
         if need not in params:
             raise AnalysisError('output(): parameter %s not found' % need)
-    env.update({'out': Opaque(), 'aconf': Opaque(), 'aconf.json': json_mode, 'aconf.host': 'h', 'aconf.port': 22, 'aconf.json_print_indent': False, 'aconf.client_audit': client, 'aconf.verbose': False, 'aconf.batch': False,
+    env.update({'out': Opaque(), 'aconf': Opaque(), 'aconf.json': json_mode, 'aconf.host': 'h', 'aconf.port': port, 'aconf.json_print_indent': False, 'aconf.client_audit': client, 'aconf.verbose': False, 'aconf.batch': False,
                 'banner': None, 'header': [], 'client_host': 'c' if client else None, 'print_target': False, 'dh_rate_test_notes': ''})
     env['kex'] = message('kex', KEX_FACTS) if proto == 2 else None
     env['pkm'] = message('pkm', PKM_FACTS) if proto == 1 else None
@@ -180,3 +180,52 @@ def run_build_struct(repo, proto, client=False, sizes=False):
     if len(finals) != 1 or finals[0].get('<forks>') or not isinstance(finals[0].get('<return>'), dict):
         raise AnalysisError('build_struct() does not evaluate to one dictionary (SSH-%d): forks %s' % (proto, [f.get('<forks>') for f in finals][:2]))
     return finals[0]['<return>'], lists
+
+
+def printed_lines(repo, funcname, host, port, ipv6, json_mode=False):
+    """Lines the text report prints through the output buffer when `output` (with print_target) or `evaluate_policy` runs for a server audit of host:port.
+    -> [text]"""
+    f = repo.func('ssh_audit', funcname)
+    from props._renderer import codes
+    env = dict(codes(repo))
+    aconf = Tok('<aconf>', {'host': host, 'port': port, 'json': json_mode, 'json_print_indent': False, 'client_audit': False, 'verbose': False, 'batch': False,
+                            'policy': Tok('<policy>')})
+    env.update({'out': Opaque(), 'aconf': aconf, 'banner': None, 'header': [], 'client_host': None, 'kex': None, 'pkm': None, 'print_target': True, 'dh_rate_test_notes': ''})
+    lines = []
+
+    def hook(call, e, interp):
+        t = call_name(call) or unparse(call.func)
+        fn = call.func
+        if t == 'Utils.is_ipv6_address':
+            return (True, ipv6)
+        if t == 'Utils.is_windows':
+            return (True, False)
+        if isinstance(fn, ast.Attribute) and unparse(fn.value) == 'out' and fn.attr in ('good', 'info', 'warn', 'fail', 'head'):
+            try:
+                v = interp.value(call.args[0], e) if call.args else ''
+            except Unknown:
+                v = Opaque()
+            e.setdefault('<lines>', []).append(v)
+            return (True, None)
+        if isinstance(fn, ast.Attribute) and fn.attr == 'evaluate' and unparse(fn.value).endswith('policy'):
+            return (True, (True, [], ''))
+        if isinstance(fn, ast.Attribute) and unparse(fn.value).endswith('policy'):
+            return (True, '<%s>' % fn.attr)
+        if t == 'out.is_section_empty':
+            return (True, True)
+        if t == 'post_process_findings':
+            return (True, (Opaque(), Opaque()))
+        if t == 'json.dumps' and call.args:
+            try:
+                return (True, ('json', interp.value(call.args[0], e)))
+            except Unknown:
+                return (True, Opaque())
+        return None
+    try:
+        finals = Interp(call_hook=hook, attr_hook=attr_hook, budget=40000).run(f.body, env)
+    except Unknown as ex:
+        raise AnalysisError('%s cannot be interpreted: %s' % (funcname, ex))
+    finals = [x for x in finals if x.get('<outcome>') != 'raise']
+    if len(finals) != 1 or finals[0].get('<forks>'):
+        raise AnalysisError('%s does not evaluate on a single path (forks %s)' % (funcname, [x.get('<forks>') for x in finals][:2]))
+    return finals[0].get('<lines>', [])
